@@ -37,7 +37,8 @@ ASSUME = ["token streams, rows and the parse of an extent are what CPython yield
 RULE = ("generated source files from a layout grammar (single-line chains, black-style one call per line, wrapped "
         "arguments, inline-then-wrapped, random legal line breaks, backslash continuations, multi-line bodies, comments and "
         "strings/f-strings with brackets and the word lambda, nested lambdas with equal or different names, enclosing "
-        "def/method/nested def/class body/if/for/try/with/comprehension/conditional expression/decorator/default argument, "
+        "identifiers that are substrings/superstrings of `lambda`/`def` as dataset variables, helpers, hops, attributes and "
+        "parameters, several calls inside an enclosing call/tuple/list/dict, def/method/nested def/class body/if/for/try/with/comprehension/conditional expression/decorator/default argument, "
         "one- and two-line defs, lambdas inside one-line defs, assigned/listed/keyword/second-argument lambdas), each run "
         "with a recording fake stream and with the real ObjectStream on an untyped dataset; a case is one callable passed "
         "to Select/Where/SelectMany; non-trivial = the scanned region holds at least two lambdas or spans several rows; "
@@ -84,6 +85,19 @@ CORPUS = [
     ("one-line def, two-line def",
      "«2100»def one(e): return e.v + 2100\n«2101»def two(e):\n    return e.v + 2101\nr = ds.Select(one).Select(two)\n",
      [(2100, "def", "Select", ["e"], True, True), (2101, "def", "Select", ["e"], True, True)]),
+    ("two calls inside an enclosing call, dataset variable named `d` (a substring of `lambda`), same signature: must raise",
+     "r = compare(ds.Select(«2120»lambda e: e.v + 2120), d.Select(«2121»lambda e: e.v * 2 + 2121))\n",
+     [(2120, "lambda", "Select", ["e"], True, False), (2121, "lambda", "Select", ["e"], True, False)]),
+    ("two calls inside an enclosing call on short-named datasets, told apart by parameter name / by method name",
+     "r = compare(ds.Select(«2130»lambda e: e.v + 2130), d.Select(«2131»lambda j: j.v * 2 + 2131))\n"
+     "r = lam(a.Select(«2132»lambda e: e.v + 2132), b.Where(«2133»lambda e: e.v + 2133 != 7), am.m.SelectMany(«2134»lambda e: e.v + 2134))\n",
+     [(2130, "lambda", "Select", ["e"], True, True), (2131, "lambda", "Select", ["j"], True, True),
+      (2132, "lambda", "Select", ["e"], True, True), (2133, "lambda", "Where", ["e"], True, True),
+      (2134, "lambda", "SelectMany", ["e"], True, True)]),
+    ("short names (substrings of the keywords) as parameter, attribute and hop names in a chain",
+     "r = l.Select(«2140»lambda a: a.lam + 2140).da.Where(«2141»lambda d: d.de + 2141 != 7).m.Select(«2142»lambda lam: lam.a + 2142)\n",
+     [(2140, "lambda", "Select", ["a"], True, True), (2141, "lambda", "Where", ["d"], True, True),
+      (2142, "lambda", "Select", ["lam"], True, True)]),
     ("nested lambdas wrapped by black, only the outer one is passed",
      "r = ds.Select(\n    «2110»lambda e: e.jets.Select(\n        «2111»lambda j: j.jets.Select(\n            «2112»lambda j1: j1.v + 2112\n        ) + (2111,)\n    ) + (2110,)\n)\n",
      [(2110, "lambda", "Select", ["e"], True, True), (2111, "lambda", "Select", ["j"], False, False),
